@@ -83,11 +83,14 @@ def run(ctx, tier):
     ctx.rule("R4", "decode-side tables map exactly the hex digits")
     ctx.rule("R5", "encoder loop: hex on bit_at true edge, verbatim on false edge, same byte")
     ctx.rule("R6", "bit_at layout")
+    ctx.rule("R7", "path_signature_table, the second copy of the path percent-encode set that lets prepared paths be copied "
+                   "verbatim, flags exactly the bytes of that set")
     cfgs = C.configs_for(tier, thorough=["release", "devchecks", "amalgamated", "nopattern"])
     fxs = C.load_configs(ctx, cfgs)
     for name in cfgs:
         ctx.set_config(name)
         check_config(ctx, fxs[name], name)
+        C.check_path_signature(ctx, fxs[name], "R7")
 
 
 def check_config(ctx, fx, cfg):
